@@ -1,5 +1,6 @@
 #!/bin/bash
 # tools/eval_seed.sh <seed-dir> <k> <demo-pkg-dir> <property-id> [check ids to run, default = property-id]
+# env OUTK=<n>: store as <prop>_<n> (default k)
 # 1. confirms the seeded change in a scratch worktree (demo passes without, fails with, package tests pass)
 # 2. applies it to /repo, runs the registered quick checks, reverts /repo
 # 3. stores /verif/seeded/<prop>_<k>/ {patch.diff, demo_test.go, note.txt, meta.json}
@@ -8,7 +9,8 @@ SEED=$1; K=$2; DEMOPKG=$3; PROP=$4; shift 4
 CHECKS=${*:-$PROP}
 export GOFLAGS=-mod=mod GOPROXY=off
 if [ -n "$(git -C /repo status --porcelain)" ]; then echo "refusing: /repo has uncommitted changes (they would be lost by the revert step)"; exit 2; fi
-OUT=/verif/seeded/${PROP}_${K}
+OUTK=${OUTK:-$K}
+OUT=/verif/seeded/${PROP}_${OUTK}
 mkdir -p $OUT
 cp $SEED/change$K.diff $OUT/patch.diff
 cp $SEED/demo${K}_test.go $OUT/demo_test.go
@@ -39,9 +41,9 @@ for c in $CHECKS; do
 done
 git -C /repo checkout -- .
 cp $EVBAK/*.json /verif/evidence/ 2>/dev/null; rm -rf $EVBAK
-python3 - "$OUT" "$PROP" "$K" "$CLEAN" "$CHANGED" "$PKGT" "$RES" "$DEMOPKG" <<'EOF'
+python3 - "$OUT" "$PROP" "$K" "$CLEAN" "$CHANGED" "$PKGT" "$RES" "$DEMOPKG" "$OUTK" <<'EOF'
 import json, sys, os
-out, prop, k, clean, changed, pkgt, res, demopkg = sys.argv[1:9]
+out, prop, k, clean, changed, pkgt, res, demopkg, outk = sys.argv[1:10]
 note = open(os.path.join(out, 'note.txt')).read() if os.path.exists(os.path.join(out, 'note.txt')) else ''
 checks = {}
 for r in res.split():
@@ -50,7 +52,7 @@ for r in res.split():
     checks[c] = {"exit": int(e.split('=')[1]), "violation_lines": vio}
 meta = {
   "breaks_property": prop,
-  "seed": int(k),
+  "seed": int(outk),
   "demo_package_dir": demopkg,
   "needs_to_manifest": note,
   "confirmed": {"demo_passes_on_unchanged_tree": clean == '0', "demo_fails_with_change": changed != '0', "touched_package_tests_pass_with_change": pkgt == '0'},
